@@ -86,6 +86,7 @@ pub fn probe(args: &[String]) -> i32 {
         Some("ladder") => c03::probe_ladder(&args[1..]),
         Some("filter-ladder") => c09::probe_ladder(&args[1..]),
         Some("c14-schedule") => c14::probe_schedule(&args[1..]),
+        Some("c14-guards") => c14::probe_guards(),
         Some("replay-file") => {
             // `hv probe replay-file <prop> <file>`: exit 0 pass, 3 fail (used by the hang watchdog with a timeout)
             let (Some(p), Some(f)) = (args.get(1), args.get(2)) else { return 2 };
